@@ -30,7 +30,27 @@ def run(cx):
     # ---- R02.equal-write-inert ------------------------------------------
     setters = [f for f in pico if aggregates(f, r"^pico::source::SourceNode$")
                and any(term_calls(t, r"DynEq::dyn_eq$") for t in f.calls())]
-    cx.floor("R02.equal-write-inert source setters comparing with dyn_eq", len(setters), 1)
+    indirect = [f for f in pico if not f.root and f not in setters and aggregates(f, r"^pico::source::SourceNode$")
+                and any(term_calls(t, r"DynEq::dyn_eq$") for g_ in fb.closures_of(f) for t in g_.calls())]
+    cx.floor("R02.equal-write-inert source setters comparing with dyn_eq", len(setters) + len(indirect), 1)
+    for f in indirect:
+        cx.note("%s compares with dyn_eq inside a closure; the equal-branch analysis is not applied to it" % f.id)
+    # ---- R02.absent-agrees-with-read: 'was absent, is it present now?' uses the reader's notion of presence ----------
+    gi = [f for f in pico if any(a.j.get("variant") == "AbsentSource" for a in aggregates(f, r"^pico::dependency::NodeKind$"))]
+    ver = [(f, s_) for f in pico for s_ in discr_switches(f) if s_["adt"] == "pico::dependency::NodeKind" and "AbsentSource" in s_["arms"]
+           and re.search(r"execute_memoized_function", f.file)]
+    if gi and ver:
+        import sibling
+        read_presence = {(t.callee or "") for f in gi for t in f.calls() if t.callee in fb.fns and re.search(r"Option<", fb.fns[t.callee].ret or "")
+                         and "source" in (t.callee or "").lower()}
+        for f, sw in ver:
+            reg = sibling.arm_regions(f, sw).get("AbsentSource", set())
+            used = {f.blocks[b].term.callee for b in reg if f.blocks[b].term.op == "call" and f.blocks[b].term.callee in fb.fns}
+            cx.ob("R02.absent-agrees-with-read", "%s|presence-test-shared-with-reader" % f.name, bool(used & read_presence) or not used,
+                  "the reader decides that a source is absent with %s, but the verification of an AbsentSource dependency asks "
+                  "%s: when the two notions differ (e.g. a removed source that keeps its key) a function that saw 'absent' is "
+                  "re-executed on every unrelated write" % (sorted(x.split("::")[-1] for x in read_presence), sorted(x.split("::")[-1] for x in used)),
+                  f.loc())
     for f in setters:
         for t in f.calls():
             if not term_calls(t, r"DynEq::dyn_eq$"):
@@ -112,6 +132,9 @@ def run(cx):
 
     # ---- R02.time-updated-writers (who may write a revision's time_updated) -------------------
     n_sites = 0
+    # calls of a constructor function of the revision count as constructions too
+    ctor = [k_ for k_ in pico if k_.impl_for and "DerivedNodeRevision" in k_.impl_for and aggregates(k_, r"^pico::derived_node::DerivedNodeRevision$")]
+    n_sites += sum(1 for h in pico for t in h.calls() if any(t.callee == k_.id for k_ in ctor))
     for h in pico:
         # field stores
         for x in stores_to_field(h, "time_updated"):
@@ -125,6 +148,8 @@ def run(cx):
                   "read changed", h.loc(x.line))
         # whole-revision constructions
         for a in aggregates(h, r"^pico::derived_node::DerivedNodeRevision$"):
+            if h in ctor:
+                continue        # a forwarding constructor: its callers are the construction sites
             n_sites += 1
             role = None
             if h.name == "insert_derived_node_revision":
